@@ -462,6 +462,9 @@ func clientProbe(call func(w *world)) func(w *world) []int {
 		if p != "" {
 			return []int{98}
 		}
+		if w.foreignCookie.Load() {
+			return []int{96} // some call of this run sent another caller's session cookie
+		}
 		if w.bounced.Load() > before {
 			return []int{0}
 		}
@@ -510,6 +513,7 @@ func rpCall(i, c, k, tn int) opd {
 		if !ok {
 			return
 		}
+		defer w.checkCookies(c, w.outLen())
 		t := w.tokensT(tn)
 		var err error
 		switch k {
@@ -626,6 +630,7 @@ func rsIntrospect(i, c, tn int) opd {
 	o := opd{coq: fmt.Sprintf("(RSIntrospect %d %d)", i, c), kind: "hc", inst: i, class: "RSIntrospect", sub: "introspect"}
 	o.needs = func(w *world) { w.tokensT(tn) }
 	o.run = func(w *world) {
+		defer w.checkCookies(c, w.outLen())
 		if r, ok := w.inst[i].(rs.ResourceServer); ok {
 			if resp, err := rs.Introspect[*oidc.IntrospectionResponse](bg, r, w.tokensT(tn).access); err == nil && resp.Active {
 				okInc("RSIntrospect")
@@ -640,6 +645,7 @@ func teExchange(i, c, tn int) opd {
 	o := opd{coq: fmt.Sprintf("(TEExchange %d %d)", i, c), kind: "hc", inst: i, class: "TEExchange", sub: "exchange"}
 	o.needs = func(w *world) { w.tokensT(tn) }
 	o.run = func(w *world) {
+		defer w.checkCookies(c, w.outLen())
 		if t, ok := w.inst[i].(tokenexchange.TokenExchanger); ok {
 			if _, err := tokenexchange.ExchangeToken(bg, t, w.tokensT(tn).access, oidc.AccessTokenType, "", "", nil, nil, []string{"openid"}, oidc.AccessTokenType); err == nil {
 				okInc("TEExchange")
@@ -698,6 +704,7 @@ func clientCall(c, k int) opd {
 	o.run = func(w *world) {
 		caller := bareCaller{w.clients[c]}
 		t := w.tokens()
+		defer w.checkCookies(c, w.outLen())
 		var err error
 		switch k {
 		case 0:
